@@ -615,6 +615,40 @@ def exact_tie_radix_ops(rng, fs, rads, per_radix=6, lossy=False):
     return ops
 
 
+def exact_tie_int_ops(rng, fs, rads, per_radix=4, lossy=False):
+    """EVERY radix (odd ones too): the integer (2^p + odd) * 2^j is an exact tie between two adjacent floats and has a
+    finite expansion in any radix; written as integer, with `.0`, with a far non-zero / zero tail, through a radix
+    exponent, in upper-case, lower-case and mixed-case digit spellings (letter digits compare by VALUE)"""
+    ops = []
+    for r in rads:
+        if r == 10:
+            continue
+        fmt = fmt_hex(pack(r))
+        e = chr(exp_char(r))
+        for ty, (p, eb) in FLOAT_TYPES.items():
+            for i in range(per_radix):
+                j = 0 if i == 0 else rng.choice([0, 1, 2, 5, 11, 40, 70])
+                odd = (1 << p) | rng.getrandbits(p) | 1
+                if i == 0:
+                    odd = (1 << p) | 1
+                n = odd << j
+                up = to_radix(n, r)
+                lo = up.lower()
+                mixed = "".join(c.lower() if rng.random() < 0.5 else c for c in up)
+                for d in (up, lo, mixed):
+                    for v in (d, d + ".0", d + "." + "0" * 30 + "1", d + e + "0"):
+                        ops.append(pf_op(ty, fmt, v, r, partial=0, lossy=lossy))
+                    # one unit below the tie in a far fraction digit: (n-1).(r-1)(r-1)...
+                    below = to_radix(n - 1, r)
+                    below = below.lower() if d is lo else below
+                    tail = DIGITS[r - 1] * 40
+                    ops.append(pf_op(ty, fmt, below + "." + (tail.lower() if d is lo else tail), r, lossy=lossy))
+                    # the tie divided by a power of the radix, expressed through the exponent
+                    k = rng.randint(1, min(12, len(d) - 1))
+                    ops.append(pf_op(ty, fmt, d[:-k] + "." + d[-k:] + e + to_radix(k, r), r, lossy=lossy))
+    return ops
+
+
 def digit_after_max(r):
     """the byte `digit_to_char` would produce for the (invalid) digit value r: ':' for 10, '[' for 36, else the next letter"""
     if r < 10:
